@@ -250,7 +250,12 @@ class DeviceConn:
         self._out(("eof",), delay)
 
     def rst(self, delay: float | None = None, exc: BaseException | None = None) -> None:
-        self._out(("rst", exc or ConnectionResetError(104, "Connection reset by peer")), delay)
+        if exc is None:
+            # what the kernel reports when the link dies differs from case to case: reset by peer, aborted, host / network unreachable
+            no = rotation.decide("link_error_errno", (104, 104, 113, 104, 103, 100))
+            exc = {104: ConnectionResetError(104, "Connection reset by peer"), 103: ConnectionAbortedError(103, "Software caused connection abort"),
+                   113: OSError(113, "No route to host"), 100: OSError(100, "Network is down")}[no]
+        self._out(("rst", exc), delay)
 
     def _out(self, item: tuple[Any, ...], delay: float | None) -> None:
         if self.outbox is not None and delay is None:
